@@ -202,17 +202,58 @@ def scripted_functions_class():
     return _SCRIPTED_FUNCTIONS
 
 
+CARRIER_TEXT = {'id': 'x',            # a plain sampled variable
+                'idf': 'f(1)',        # a user function drawn anew at every sample, f_i(t) = v_i * t
+                'idn': 'a_{1}',       # an instance of the numbered variable a
+                'idd': 'y',           # a dependent variable, y = 1*x
+                'idm': '(one*x)'}     # a user constant times the variable
+CARRIER_OF_TEXT = {v: k for k, v in CARRIER_TEXT.items()}
+
+
 def carrier_text(ans):
-    """how the formulas refer to the sampled value: the variable x, or f(1) for a per-sample-drawn function f"""
-    return 'f(1)' if ans['form'] == 'idf' else 'x'
+    """how the formulas refer to the sampled value"""
+    return CARRIER_TEXT.get(ans['form'], 'x')
+
+
+def second_variable_text(ans):
+    """the second scripted quantity of the 'addvar' form: another numbered instance when numbered variables carry"""
+    return 'b_{2}' if ans['form'] == 'idn' else 'd'
+
+
+def carrier_config(carrier, script, dscript=None):
+    """the sampling part of a grader configuration for one carrier.  returns (config entries, sampler of the value,
+    sampler of the second variable or None); both samplers record what they hand out"""
+    from engine.fixtures import ScriptedSampler
+    from mitxgraders.sampling import DependentSampler
+    sd = ScriptedSampler(script=list(dscript)) if dscript is not None else None
+    if carrier == 'idf':
+        sx = scripted_functions_class()(script=list(script))
+        cfg = {'variables': [], 'sample_from': {}, 'user_functions': {'f': sx}}
+    elif carrier == 'idn':
+        sx = ScriptedSampler(script=list(script))
+        cfg = {'variables': [], 'numbered_vars': ['a'], 'sample_from': {'a': sx}}
+        if sd is not None:
+            cfg['numbered_vars'].append('b')
+            cfg['sample_from']['b'] = sd
+        return cfg, sx, sd
+    else:
+        sx = ScriptedSampler(script=list(script))
+        cfg = {'variables': ['x'], 'sample_from': {'x': sx}}
+        if carrier == 'idd':
+            cfg['variables'].append('y')
+            cfg['sample_from']['y'] = DependentSampler(depends=['x'], formula='1*x')
+        elif carrier == 'idm':
+            cfg['user_constants'] = {'one': 1}
+    if sd is not None:
+        cfg['variables'].append('d')
+        cfg['sample_from']['d'] = sd
+    return cfg, sx, sd
 
 
 def answer_text(ans, X='x'):
-    """the author's answer: the variable itself, f(1) for a sampled function, or a constant expression"""
-    if ans['form'] == 'idf':
-        return 'f(1)'
-    if ans['form'] == 'id':
-        return X
+    """the author's answer: the carrier of the sampled value, or a constant expression"""
+    if ans['form'] in CARRIER_TEXT:
+        return CARRIER_TEXT[ans['form']] if ans['form'] != 'id' else X
     lit = lit_value(ans['k'])
     return lit if ans.get('sp', 'lit') == 'lit' else '%s*pi/pi' % lit
 
@@ -254,21 +295,10 @@ def configured_grader(c, with_d):
            tuple(c['credit']), c['part'] == 'inf', with_d, answer)
     hit = _GRADERS.get(key)
     if hit is None:
-        by_function = c.get('ans', ID_ANS)['form'] == 'idf'
-        if by_function:
-            sx = scripted_functions_class()(script=[1.0])
-            variables, sample_from, sd = [], {}, None
-        else:
-            sx = ScriptedSampler(script=[1.0])
-            variables, sample_from, sd = ['x'], {'x': sx}, None
-        if with_d:
-            sd = ScriptedSampler(script=[1.0])
-            variables.append('d')
-            sample_from['d'] = sd
+        ccfg, sx, sd = carrier_config(c.get('ans', ID_ANS)['form'], [1.0], [1.0] if with_d else None)
         cfg = dict(tolerance=tol_py(c['tol']), answers={'expect': answer, 'grade_decimal': credit_py(c['credit'])},
-                   variables=variables, sample_from=sample_from, samples=c['n'], failable_evals=c['failable'])
-        if by_function:
-            cfg['user_functions'] = {'f': sx}
+                   samples=c['n'], failable_evals=c['failable'])
+        cfg.update(ccfg)
         if c['grader'] == 'M':
             cfg['max_array_dim'] = 2
             g = MatrixGrader(**cfg)
@@ -309,7 +339,7 @@ def run_form_case(c):
             sd.config['script'] = dscript
             sd.draws = []
             samplers.append((sd, dscript))
-            P = 'd'
+            P = second_variable_text(c.get('ans', ID_ANS))
         else:
             P = lit_value(par[0])
         student = student_text(form, carrier_text(c.get('ans', ID_ANS)), P)
@@ -555,8 +585,10 @@ def violation_class(c, allowed, observed, margins=None):
     kind = 'percentage' if c['tol']['kind'] == 'pct' else 'absolute'
     if c.get('ans', ID_ANS)['form'] == 'const':
         kind = 'constant-answer-' + kind
-    if c.get('ans', ID_ANS)['form'] == 'idf':
-        kind = 'sampled-function-' + kind
+    carrier = c.get('ans', ID_ANS)['form']
+    if carrier in CARRIER_TEXT and carrier != 'id':
+        kind = {'idf': 'sampled-function-', 'idn': 'numbered-variable-', 'idd': 'dependent-variable-',
+                'idm': 'constant-variable-mix-'}[carrier] + kind
     if c['part'] == 'inf' or any(v.get('inf') for v in c.get('xs', [])):
         return 'infinity-comparison'
     if margins and 'edge' in margins or margins and 'edge0' in margins:
@@ -724,8 +756,8 @@ def rand_verdict_case(rng, i):
            'ans': id_ans(),
            'failable': failable, 'credit': rq(credit), 'xs': [val(shape, e) for e in xs], 'form': form,
            'par': [val(pshape, p) for p in par]}
-    if grader != 'N' and rng.random() < 0.15:      # the sampled value is carried by a per-sample-drawn function
-        rec['ans']['form'] = 'idf'
+    if grader != 'N' and rng.random() < 0.25:      # another carrier of the sampled value than a plain variable
+        rec['ans']['form'] = rng.choice(['idf', 'idn', 'idd', 'idm'])
     return rec
 
 
@@ -1049,7 +1081,8 @@ def run(ctx):
     ctx.assumptions += [
         'samples closer than about 0.5 % to the tolerance boundary are not generated (guard band); exact-boundary cases only '
         'where every float operation is exact',
-        'failable_evals >= samples >= 2 with every sample out of tolerance: the statement is read both ways (accept or reject)',
+        'failable_evals >= samples >= 2: the count rule decides (a miss at every sample is forgiven); only a single-sample '
+        'grader tolerates no failure',
         'only the default equality comparison and single-answer graders; shape mismatches and NaN are outside this check',
         'rewrite records under random sampling use strictly positive answer trees (no cancellation)']
 
@@ -1081,13 +1114,8 @@ def replay(ctx, rec):
             cfg.update(variables=['x', 'y'], sample_from={'x': ScriptedSampler(script=xs), 'y': ScriptedSampler(script=ys)})
         elif 'sampled' in sig:
             script = [_parse_literal(t) for t in sig['sampled']]
-            if sig['answer'] == 'f(1)':
-                cfg.update(variables=[], sample_from={}, user_functions={'f': scripted_functions_class()(script=script)})
-            else:
-                cfg.update(variables=['x'], sample_from={'x': ScriptedSampler(script=script)})
-            if sig.get('form') == 'addvar':
-                cfg['variables'].append('d')
-                cfg['sample_from']['d'] = ScriptedSampler(script=[_parse_literal(t) for t in sig['params']])
+            dscript = [_parse_literal(t) for t in sig['params']] if sig.get('form') == 'addvar' else None
+            cfg.update(carrier_config(CARRIER_OF_TEXT.get(sig['answer'], 'id'), script, dscript)[0])
         else:
             cfg.update(variables=['x', 'y', 'z'])
         if sig['grader'] == 'MatrixGrader':
